@@ -762,6 +762,9 @@ func (e *Engine) exec(fr *Frame, s *State, in ssa.Instruction) {
 	case *ssa.Store:
 		p := e.get(fr, i.Addr).(*Ptr)
 		v := e.get(fr, i.Val)
+		if !fr.harn {
+			e.H.storeSite(e.pos(i))
+		}
 		e.storeVal(s, p, v, i.Val.Type(), e.pos(i), fr)
 	case *ssa.Call:
 		r := e.execCall(fr, s, i)
@@ -781,7 +784,19 @@ func (e *Engine) unop(fr *Frame, s *State, i *ssa.UnOp) Value {
 		if !ok {
 			panic(unsupported("load through %T", x))
 		}
-		return e.load(s, p, i.Type(), e.pos(i), fr)
+		v := e.load(s, p, i.Type(), e.pos(i), fr)
+		if t, isT := v.(*Term); isT && t.S.K == SInt && !fr.harn {
+			// the code under test reads a machine word out of an object that currently holds an abstract
+			// (field-level) value: what it sees depends on the representation, not on the value.  The read
+			// yields an unconstrained word (over-approximation) and is noted in the evidence.
+			if b, isB := i.Type().Underlying().(*types.Basic); isB && b.Info()&types.IsInteger != 0 {
+				w, _ := e.typeWidth(i.Type())
+				e.H.rawReads++
+				e.H.notes = append(e.H.notes, "raw word read of an abstract value at "+e.pos(i)+" (treated as an arbitrary word)")
+				return e.st.Sym(fmt.Sprintf("rawword_%d", e.H.nextSym()), BV(w))
+			}
+		}
+		return v
 	case token.SUB:
 		t := x.(*Term)
 		if t.S.K == SInt {
